@@ -18,7 +18,7 @@ META = {
 
 
 def mine(key, theorem):
-    return theorem in ('C13_no_close_while_live', 'C13_eventually_closed', 'C13_new_requests_move', 'harness')
+    return theorem in ('C13_no_close_while_live', 'C13_eventually_closed', 'C13_new_requests_move', 'C13_replacement_not_abandoned', 'harness')
 
 
 def run(ctx):
